@@ -463,6 +463,8 @@ func ParseHdrLine(buf []byte, offs int, h *Hdr, hb PHBodies) (int, ErrorHdr) {
 					if h.state != hContact {
 						// new contact header found
 						contacts.HNo++
+						// its value starts with its own first contact
+						contacts.LastHVal.Reset()
 					}
 					h.state = hContact
 					n, err = ParseAllContactValues(buf, o, contacts)
@@ -483,6 +485,8 @@ func ParseHdrLine(buf []byte, offs int, h *Hdr, hb PHBodies) (int, ErrorHdr) {
 					if h.state != hPAI {
 						// new contact header found
 						pais.HNo++
+						// its value starts with its own first PAI value
+						pais.LastHVal.Reset()
 					}
 					h.state = hPAI
 					n, err = ParseAllPAIValues(buf, o, pais)
